@@ -71,3 +71,12 @@ func RunFuzzCfg(cfg CheckCfg, prop func(*rapid.T), input []byte) HostRes {
 	defer resetFlags()
 	return RunFuzz(prop, input)
 }
+
+// HostedPair runs two functions as sub-tests at the same time (two host tests serve the request channel).
+func HostedPair(fa, fb func(t *testing.T)) (HostRes, HostRes) {
+	ra := hostReq{fn: fa, done: make(chan HostRes, 1)}
+	rb := hostReq{fn: fb, done: make(chan HostRes, 1)}
+	hostCh <- ra
+	hostCh <- rb
+	return <-ra.done, <-rb.done
+}
